@@ -3,10 +3,236 @@
 package recon
 
 import (
+	"bytes"
+	"context"
+	"crypto/sha1"
+	"fmt"
+	"io"
+	"os"
+	"path/filepath"
+	"sort"
+	"strings"
+	"syscall"
 	"testing"
+
+	"github.com/mutagen-io/mutagen/pkg/filesystem"
+	"github.com/mutagen-io/mutagen/pkg/filesystem/behavior"
+	"github.com/mutagen-io/mutagen/pkg/logging"
+	"github.com/mutagen-io/mutagen/pkg/synchronization"
+	"github.com/mutagen-io/mutagen/pkg/synchronization/core"
+	mutagenignore "github.com/mutagen-io/mutagen/pkg/synchronization/core/ignore/mutagen"
+	"github.com/mutagen-io/mutagen/pkg/synchronization/endpoint/local"
 
 	"verif/internal/vr"
 )
 
-func endpointLegC02(t *testing.T, r *vr.Report) {}
-func diskLegC03(t *testing.T, r *vr.Report)     {}
+// diskSnapshot is an independent lstat/readlink/bytes walk of a directory.
+func diskSnapshot(root string) map[string]string {
+	out := map[string]string{}
+	filepath.Walk(root, func(p string, info os.FileInfo, err error) error {
+		if err != nil {
+			return nil
+		}
+		rel, _ := filepath.Rel(root, p)
+		st := info.Sys().(*syscall.Stat_t)
+		desc := fmt.Sprintf("mode=%v ino=%d", info.Mode(), st.Ino)
+		switch {
+		case info.Mode()&os.ModeSymlink != 0:
+			t, _ := os.Readlink(p)
+			desc += " -> " + t
+		case info.Mode().IsRegular():
+			b, _ := os.ReadFile(p)
+			desc += fmt.Sprintf(" sha=%x", sha1.Sum(b))
+		}
+		out[rel] = desc
+		return nil
+	})
+	return out
+}
+
+func snapshotDiff(a, b map[string]string) string {
+	var d []string
+	for k, v := range a {
+		if w, ok := b[k]; !ok {
+			d = append(d, "removed "+k)
+		} else if w != v {
+			d = append(d, "changed "+k)
+		}
+	}
+	for k := range b {
+		if _, ok := a[k]; !ok {
+			d = append(d, "added "+k)
+		}
+	}
+	sort.Strings(d)
+	return strings.Join(d, ", ")
+}
+
+// endpointLegC02: "the source (alpha) endpoint is never modified ... through its
+// endpoint accepting staging or transition requests".
+func endpointLegC02(t *testing.T, r *vr.Report) {
+	data := t.TempDir()
+	t.Setenv("MUTAGEN_DATA_DIRECTORY", data)
+	logger := logging.NewLogger(logging.LevelDisabled, io.Discard)
+	ops := []string{"stage-one", "stage-none", "transition-create", "transition-delete"}
+	n := 0
+	for _, m := range allModes {
+		for _, alpha := range []bool{true, false} {
+			for _, op := range ops {
+				n++
+				root := filepath.Join(t.TempDir(), "root")
+				os.MkdirAll(root, 0o755)
+				os.WriteFile(filepath.Join(root, "f"), []byte("content-f"), 0o644)
+				cfg := &synchronization.Configuration{SynchronizationMode: m, WatchMode: synchronization.WatchMode_WatchModeNoWatch}
+				ep, err := local.NewEndpoint(logger, root, fmt.Sprintf("sync_verifC02%04d", n), synchronization.Version_Version1, cfg, alpha)
+				if err != nil {
+					t.Fatalf("INFRA: NewEndpoint: %v", err)
+				}
+				snap, err, _ := ep.Scan(context.Background(), nil, true)
+				if err != nil {
+					ep.Shutdown()
+					t.Fatalf("INFRA: Scan: %v", err)
+				}
+				before := diskSnapshot(root)
+				var opErr error
+				digest := sha1.Sum([]byte("new"))
+				switch op {
+				case "stage-one":
+					_, _, rc, e := ep.Stage([]string{"g"}, [][]byte{digest[:]})
+					opErr = e
+					_ = rc
+				case "stage-none":
+					_, _, _, opErr = ep.Stage(nil, nil)
+				case "transition-create":
+					_, _, _, opErr = ep.Transition(context.Background(), []*core.Change{{Path: "d", New: &E{Kind: core.EntryKind_Directory}}})
+				case "transition-delete":
+					_, _, _, opErr = ep.Transition(context.Background(), []*core.Change{{Path: "f", Old: snap.Content.Contents["f"]}})
+				}
+				after := diskSnapshot(root)
+				ep.Shutdown()
+				readOnly := alpha && (m == core.SynchronizationMode_SynchronizationModeOneWaySafe || m == core.SynchronizationMode_SynchronizationModeOneWayReplica)
+				key := fmt.Sprintf("endpoint:%s:alpha=%v:%s", modeName(m), alpha, op)
+				r.Case(key, true)
+				if readOnly {
+					r.Outcome("endpoint-leg-readonly")
+					if opErr == nil && op != "stage-none" {
+						r.Violate(key, "alpha endpoint of a one-way session accepted "+op, map[string]interface{}{"mode": modeName(m), "alpha": alpha, "op": op}, nil)
+					}
+					if d := snapshotDiff(before, after); d != "" {
+						r.Violate(key+":disk", "alpha root of a one-way session was modified by "+op+": "+d, map[string]interface{}{"mode": modeName(m), "alpha": alpha, "op": op}, nil)
+					}
+				} else {
+					if opErr == nil {
+						r.Outcome("endpoint-leg-writable-accepted")
+					} else {
+						r.Outcome("endpoint-leg-writable-refused")
+					}
+					// Vacuity guard for the leg: the same requests DO modify a writable endpoint.
+					if op == "transition-delete" && opErr == nil && snapshotDiff(before, after) == "" {
+						r.Set("endpoint_leg_anomaly", "transition-delete left a writable root unchanged")
+					}
+				}
+			}
+		}
+	}
+	r.Set("endpoint_leg_cases", n)
+}
+
+type dirProvider struct{ dir string }
+
+func (p *dirProvider) Provide(path string, digest []byte) (string, error) {
+	return filepath.Join(p.dir, fmt.Sprintf("%x", digest)), nil
+}
+
+// diskLegC03: real directories that hold ignored files, FIFOs and non-UTF-8 names
+// while a plan wants to delete or replace the directory (or a parent).
+func diskLegC03(t *testing.T, r *vr.Report) {
+	objects := []string{"ignored-file", "fifo", "non-utf8", "ignored-dir-with-file"}
+	places := []string{"d", "d/sub"}
+	plans := []string{"remove", "to-file", "to-link"}
+	ign, err := mutagenignore.NewIgnorer([]string{"ign*"})
+	if err != nil {
+		t.Fatalf("INFRA: %v", err)
+	}
+	n := 0
+	for _, obj := range objects {
+		for _, place := range places {
+			for _, plan := range plans {
+				for _, fresh := range []bool{false, true} {
+					n++
+					root := filepath.Join(t.TempDir(), "root")
+					stage := t.TempDir()
+					os.MkdirAll(filepath.Join(root, "d", "sub"), 0o755)
+					os.WriteFile(filepath.Join(root, "d", "f"), []byte("tracked-f"), 0o644)
+					os.WriteFile(filepath.Join(root, "d", "sub", "g"), []byte("tracked-g"), 0o644)
+					mk := func() []string {
+						base := filepath.Join(root, place)
+						switch obj {
+						case "ignored-file":
+							os.WriteFile(filepath.Join(base, "ignored.txt"), []byte("precious"), 0o644)
+							return []string{filepath.Join(place, "ignored.txt")}
+						case "fifo":
+							syscall.Mkfifo(filepath.Join(base, "pipe"), 0o644)
+							return []string{filepath.Join(place, "pipe")}
+						case "non-utf8":
+							os.WriteFile(filepath.Join(base, "bad\xffname"), []byte("precious"), 0o644)
+							return []string{filepath.Join(place, "bad\xffname")}
+						default:
+							os.MkdirAll(filepath.Join(base, "ignoreddir"), 0o755)
+							os.WriteFile(filepath.Join(base, "ignoreddir", "k"), []byte("precious"), 0o644)
+							return []string{filepath.Join(place, "ignoreddir"), filepath.Join(place, "ignoreddir", "k")}
+						}
+					}
+					var precious []string
+					if !fresh {
+						precious = mk() // present at scan time (shows up as untracked/problematic)
+					}
+					snap, cache, _, err := core.Scan(context.Background(), root, nil, nil, sha1.New(), &core.Cache{}, ign, nil,
+						behavior.ProbeMode_ProbeModeProbe, core.SymbolicLinkMode_SymbolicLinkModePortable, core.PermissionsMode_PermissionsModePortable)
+					if err != nil {
+						t.Fatalf("INFRA: scan: %v", err)
+					}
+					if fresh {
+						precious = mk() // appears between scan and transition
+					}
+					old := syncFilter(snap.Content.Contents["d"])
+					var nw *E
+					switch plan {
+					case "to-file":
+						data := []byte("replacement")
+						sum := sha1.Sum(data)
+						os.WriteFile(filepath.Join(stage, fmt.Sprintf("%x", sum[:])), data, 0o600)
+						nw = &E{Kind: core.EntryKind_File, Digest: sum[:]}
+					case "to-link":
+						nw = &E{Kind: core.EntryKind_SymbolicLink, Target: "elsewhere"}
+					}
+					before := diskSnapshot(root)
+					results, problems, _ := core.Transition(context.Background(), root, []*core.Change{{Path: "d", Old: old, New: nw}}, cache,
+						core.SymbolicLinkMode_SymbolicLinkModePortable, filesystem.ModePermissionUserRead|filesystem.ModePermissionUserWrite,
+						filesystem.ModePermissionUserRead|filesystem.ModePermissionUserWrite|filesystem.ModePermissionUserExecute, nil, false, &dirProvider{stage})
+					after := diskSnapshot(root)
+					key := fmt.Sprintf("disk:%s:%s:%s:fresh=%v", obj, place, plan, fresh)
+					r.Case(key, true)
+					c := map[string]interface{}{"object": obj, "place": place, "plan": plan, "appeared_after_scan": fresh}
+					for _, p := range precious {
+						if before[p] == "" {
+							t.Fatalf("INFRA: fixture %q missing before transition", p)
+						}
+						if after[p] != before[p] {
+							r.Violate(key, fmt.Sprintf("untracked object %q was %s by the transition (before %q, after %q)", p, map[bool]string{true: "removed", false: "replaced/modified"}[after[p] == ""], before[p], after[p]), c, nil)
+						}
+					}
+					if len(problems) == 0 {
+						r.Violate(key+":silent", "transition over a directory holding untracked content reported no problem", c, nil)
+					}
+					if len(results) == 1 && results[0] != nil && bytes.Equal(results[0].Digest, nw.GetDigest()) && nw != nil && nw.Kind == core.EntryKind_File {
+						r.Violate(key+":replaced", "transition reports the directory was replaced although it held untracked content", c, nil)
+					}
+					r.Outcome(fmt.Sprintf("disk-leg-problems=%v", len(problems) > 0))
+				}
+			}
+		}
+	}
+	r.Set("disk_leg_cases", n)
+	r.Sample(map[string]interface{}{"disk_leg": "root/d{f,sub{g}} + FIFO in d/sub appearing after the scan; plan: replace d by a file"})
+}
